@@ -5,6 +5,7 @@ import (
 	"context"
 	"fmt"
 	"runtime/debug"
+	"strings"
 	"sync"
 	"time"
 
@@ -742,6 +743,62 @@ func (c *c08Rig) concurrent(ops []c08Op) {
 	c.latestAcceptable(commits > 0)
 }
 
+// overflowFund sends a funding request whose deposits add up to 2 H modulo
+// 2^128 (max + 2 H + 1 H) under the renter's genuine signature for a revision
+// that pays 2 H. A host that signs it moves 2 H and credits 2^128 + 2 H.
+func (c *c08Rig) overflowFund() {
+	e := c.e
+	e.Step()
+	before := c.snapshot()
+	c.hook = func(_ int, id types.Specifier, step int, st simrhp.Step, o proto4.Object, raw []byte) simrhp.Action {
+		if req, ok := o.(*proto4.RPCFundAccountsRequest); ok && st.FromRenter && raw == nil {
+			req.Deposits = []proto4.AccountDeposit{
+				{Account: c.acct(0), Amount: types.MaxCurrency},
+				{Account: c.acct(1), Amount: types.NewCurrency64(2)},
+				{Account: c.acct(2), Amount: types.NewCurrency64(1)},
+			}
+			e.Fault("renter-deposits-overflow")
+		}
+		return simrhp.Pass
+	}
+	var err error
+	e.Guard("C08.panic", "RPC fund (overflowing deposits)", func() {
+		var res rhp4.RPCFundAccountResult
+		res, err = rhp4.RPCFundAccounts(context.Background(), c.tr, c.cs(), c.signer, c.contract, []proto4.AccountDeposit{{Account: c.acct(1), Amount: types.NewCurrency64(2)}})
+		if err == nil {
+			c.contract.Revision = res.Revision
+		}
+	})
+	c.hook = nil
+	waitQuiet()
+	// the unchanged handler sums the deposits with Currency.Add, which panics
+	// on overflow; the server recovers the panic and drops the stream. That
+	// changes nothing and is accepted here; any other recovered panic is not.
+	for _, hp := range c.handlerPanics() {
+		if !strings.Contains(hp, "overflow") {
+			e.Violationf("C08.panic", "rpc-handler-panic:fund-overflow", "the RHP server recovered a panic in an RPC handler: %s", hp)
+		}
+		e.Probe("host_handler_panicked_on_overflowing_deposits")
+	}
+	commits := 0
+	for _, call := range c.contractor.calls[c.seenCall:] {
+		if call.revision != nil && call.err == nil {
+			commits++
+		}
+	}
+	c.seenCall = len(c.contractor.calls)
+	e.Logf("fund with overflowing deposits -> renter err=%v, host persisted %d revision(s)", err != nil, commits)
+	e.Shape("fund-overflow", fmt.Sprint(err != nil), fmt.Sprint(commits))
+	e.Nontrivial = true
+	if commits > 0 {
+		e.Violationf("C08.bad-request-changes-nothing", "deposits-overflow", "a funding request whose deposits overflow (max + 2 H + 1 H) made the host persist %d revision(s) and credit the accounts", commits)
+	}
+	if d := before.diff(c.snapshot()); d != "" {
+		e.Violationf("C08.bad-request-changes-nothing", "deposits-overflow:state", "a funding request whose deposits overflow was not committed but the host's state changed: %s", d)
+	}
+	c.resync()
+}
+
 // cloneObj copies a message via its encoding.
 func cloneObj(o proto4.Object) proto4.Object {
 	var buf bytes.Buffer
@@ -793,6 +850,9 @@ func runC08(e *sim.Env) {
 		if e.Chance(1, 8) {
 			c.concurrent(ops)
 		}
+		if e.Chance(1, 12) {
+			c.overflowFund()
+		}
 		late := 0
 		if c.short && c.onChain {
 			late = 1
@@ -824,7 +884,7 @@ func runC08(e *sim.Env) {
 func init() {
 	register(&Prop{
 		ID: "C08", Run: runC08, Race: true, Flavour: "instrumented", Quick: 1200, Thorough: 8000, Level: "exploration",
-		Rule:        "one run = a formed contract and 10-40 renter RPCs (fund accounts, replenish accounts, replenish pools, append, free, sector roots, latest revision) issued by the real client through a typed relay that, for 2 in 5 of them, corrupts one field of a renter->host message (contract id, challenge signature, revision signature in the request or in the second response, a price-table field, a price table signed by a foreign key, out-of-range / duplicate parameters, deposits beyond the allowance) or replaces it with a recorded message of an earlier exchange; price tables expire by clock jumps; 1 run in 4 uses a contract of minimum duration and mines until its proof window opens (every revision persisted from then on is unacceptable to consensus); at 1 step in 8, 2-3 honest RPCs are issued on the same contract at overlapping simulated times, the renter's second message of each held back for a drawn delay, and everything the host tried to persist - in the order it tried, including attempts its contractor refused - goes through the same rules; every revision the host persists (recorded at the Contractor interface) is checked against the previously persisted one: strictly higher number, valid renter and host signatures over exactly it, immutable fields, value only moves to the host, constant sum, renter payout lowered by exactly the independently computed price (core's cost functions on the request that reached the host); corrupted requests persist nothing and leave contracts, accounts, pools untouched; renter and host end every exchange on the same revision; the latest revision validates with consensus as a revision of the on-chain element; distinct = abstract trace (op, corruption, outcome); non-trivial = at least one corrupted message",
+		Rule:        "one run = a formed contract and 10-40 renter RPCs (fund accounts, replenish accounts, replenish pools, append, free, sector roots, latest revision) issued by the real client through a typed relay that, for 2 in 5 of them, corrupts one field of a renter->host message (contract id, challenge signature, revision signature in the request or in the second response, a price-table field, a price table signed by a foreign key, out-of-range / duplicate parameters, deposits beyond the allowance) or replaces it with a recorded message of an earlier exchange; a funding request whose deposits overflow 2^128 under a genuine signature for the wrapped total (1 step in 12); price tables expire by clock jumps; 1 run in 4 uses a contract of minimum duration and mines until its proof window opens (every revision persisted from then on is unacceptable to consensus); at 1 step in 8, 2-3 honest RPCs are issued on the same contract at overlapping simulated times, the renter's second message of each held back for a drawn delay, and everything the host tried to persist - in the order it tried, including attempts its contractor refused - goes through the same rules; every revision the host persists (recorded at the Contractor interface) is checked against the previously persisted one: strictly higher number, valid renter and host signatures over exactly it, immutable fields, value only moves to the host, constant sum, renter payout lowered by exactly the independently computed price (core's cost functions on the request that reached the host); corrupted requests persist nothing and leave contracts, accounts, pools untouched; renter and host end every exchange on the same revision; the latest revision validates with consensus as a revision of the on-chain element; distinct = abstract trace (op, corruption, outcome); non-trivial = at least one corrupted message",
 		Real:        []string{"rhp4.Server", "rhp4 RPC* client functions", "wallet.SingleAddressWallet x2", "chain.Manager", "testutil.EphemeralContractor / EphemeralSectorStore behind recording wrappers"},
 		Stub:        []string{"transport: simrhp in-memory streams with typed relay", "disk: simdisk.DB"},
 		Assumptions: []string{"concurrent RPCs overlap at message boundaries (drawn delays in the relay); interleavings inside a handler between two messages are not enumerated", "renew/refresh are exercised by C16", "go.sia.tech/core's price functions define the amount due"},
